@@ -53,13 +53,17 @@ class _MixtureOfProductDistribution(NamedTuple):
             elif isinstance(d, _BatchedTruncNormDistributions):
                 active_mus = d.mu[active_indices]
                 active_sigmas = d.sigma[active_indices]
-                ret[:, i] = _truncnorm.rvs(
+                samples = _truncnorm.rvs(
                     a=(d.low - active_mus) / active_sigmas,
                     b=(d.high - active_mus) / active_sigmas,
                     loc=active_mus,
                     scale=active_sigmas,
                     random_state=rng,
                 )
+                # The inverse CDF saturates when the domain is more than 100 sigma away from
+                # ``mu`` (e.g. past values of the parameter come from a distant range), which
+                # would give a sample outside the domain.
+                ret[:, i] = np.clip(samples, d.low, d.high)
             elif isinstance(d, _BatchedDiscreteTruncNormDistributions):
                 active_mus = d.mu[active_indices]
                 active_sigmas = d.sigma[active_indices]
